@@ -16,7 +16,7 @@ DECIDES = ("Decided: what can enter the result set of _find_types in subtype mod
            "the mode wiring of find_subtypes / find_supertypes, and for find_irrelevant_type: None for the top type, type "
            "variables replaced by their bound, the pool minus BOTH supertypes and subtypes (include_self), and that an "
            "instantiated generic candidate is tested against the query type before it is returned; nested searches for "
-           "type arguments are concrete and run in the query direction in covariant, against it in contravariant position.")
+           "type arguments are concrete and run in the query direction in covariant, against it in contravariant position. Also: the supertype closure the searches rest on is a complete worklist closure.")
 NOT_DECIDED = "soundness of _construct_related_types (randomised, value level)."
 
 TU = "src.ir.type_utils"
